@@ -602,6 +602,45 @@ pub fn apply_model(m: &mut M, op: &QOp) -> String {
     }
 }
 
+/// An iterator adaptor that reports one of the size hints a correct iterator may report:
+/// exact, unknown, or a lower bound of 0 with a huge upper bound (`take_while` over an unbounded
+/// range). Which one is a function of the items, so that replays are deterministic.
+pub struct Hinted<I> {
+    inner: I,
+    left: usize,
+    kind: u8,
+}
+
+impl<I> Hinted<I> {
+    pub fn new(inner: I, pairs: &[(String, String)]) -> Self {
+        let kind = (pairs.iter().map(|(k, v)| k.len() + 3 * v.len()).sum::<usize>() % 6) as u8;
+        Hinted { inner, left: pairs.len(), kind }
+    }
+}
+
+impl<I: Iterator> Iterator for Hinted<I> {
+    type Item = I::Item;
+
+    fn next(&mut self) -> Option<I::Item> {
+        let x = self.inner.next();
+        if x.is_some() {
+            self.left -= 1;
+        }
+        x
+    }
+
+    fn size_hint(&self) -> (usize, Option<usize>) {
+        match self.kind {
+            0 => (self.left, Some(self.left)),
+            1 => (0, None),
+            2 => (0, Some(usize::MAX)),
+            3 => (0, Some(isize::MAX as usize)),
+            4 => (self.left, None),
+            _ => (self.left.min(1), Some(self.left + 1000)),
+        }
+    }
+}
+
 fn real_list(q: &Qualifiers) -> String {
     format!("{:?}", q.iter().map(|(k, v)| (k.as_str().to_string(), v.to_string())).collect::<Vec<_>>())
 }
@@ -926,7 +965,7 @@ pub fn apply_real(q: &mut Qualifiers, op: &QOp) -> String {
             q.clone_from(&other);
             real_list(q)
         },
-        QOp::TryFromIter(pairs) => match Qualifiers::try_from_iter(pairs.iter().map(|(k, v)| (k.as_str(), v.as_str()))) {
+        QOp::TryFromIter(pairs) => match Qualifiers::try_from_iter(Hinted::new(pairs.iter().map(|(k, v)| (k.as_str(), v.as_str())), pairs)) {
             Ok(n) => {
                 *q = n;
                 format!("Ok({})", real_list(q))
@@ -1013,7 +1052,9 @@ pub fn step(q: &mut Qualifiers, m: &mut M, op: &QOp) -> Option<Fail> {
     let got_s = match &got {
         Out::Ok(s) => s.clone(),
         Out::Panic(p) => {
-            if want == PANIC && p.starts_with("Qualifier ") && p.contains("not found") {
+            // (the hook keeps the first 160 characters of the message: a long key pushes the
+            // words after it out, so only the beginning is matched)
+            if want == PANIC && p.starts_with("Qualifier ") {
                 PANIC.to_string()
             } else {
                 format!("PANIC[{p}]")
